@@ -146,18 +146,82 @@ R.contract(
     prop=["C10", "C12"],
 )
 
-# NOT PROVED: the loop of subtract (pop / split / truncate inside one while) has no inductive
-# invariant in this tree.  The contract below is ASSUMED at call sites (trusted=True) and is
-# checked on the real function only by the bounded stand-in `rangeset-smallscope`.
+# subtract: proved with a two-part loop invariant.
+#   GENERAL part (no right remainder produced yet): the processed prefix [0, i) consists of original ranges at their
+#   original index, possibly trimmed on the right at `start`, all ending at or before `start`; then p = n0 - len ranges
+#   were popped (each covered by [start, stop)); the tail [i, len) is the original tail shifted by p.
+#   DONE part (a right remainder was just produced by "trim left" or "split"): the final postcondition already holds
+#   for the current list and the next iteration returns immediately (stop <= current range's start).
+R.spec(
+    """
+def sub_view(rs, v0, start, stop, x):
+    return v0[x] and not (start <= x < stop)
+
+def sub_idx(rs, i0, n0, start, x):
+    return ite(x < start, i0[x], i0[x] + (len(RL(rs)) - n0))
+
+def sub_sound(rs, v0, start, stop):
+    return forall(lambda k, x: implies(0 <= k < len(RL(rs)) and RL(rs)[k].start <= x < RL(rs)[k].stop, v0[x] and not (start <= x < stop)))
+
+def sub_complete(rs, v0, i0, n0, start, stop):
+    return forall(lambda x: implies(v0[x] and not (start <= x < stop),
+            0 <= sub_idx(rs, i0, n0, start, x) < len(RL(rs)) and RL(rs)[sub_idx(rs, i0, n0, start, x)].start <= x < RL(rs)[sub_idx(rs, i0, n0, start, x)].stop))
+"""
+)
+
+_SUB_G = [
+    # G1/G2
+    "0 <= i <= len(RL(self)) and len(RL(self)) <= len(old(RL(self)))",
+    # G3 processed prefix: originals at their own index, possibly right-trimmed at `start`, all at or before `start`
+    "forall(lambda k: implies(0 <= k < i, RL(self)[k].start == old(RL(self))[k].start and RL(self)[k].start < RL(self)[k].stop and RL(self)[k].stop <= start))",
+    "forall(lambda k: implies(0 <= k < i, RL(self)[k].stop == old(RL(self))[k].stop or (RL(self)[k].stop == start and old(RL(self))[k].stop <= stop)))",
+    # G4 popped block and shifted tail
+    "forall(lambda k: implies(i <= k < len(RL(self)), RL(self)[k] == old(RL(self))[k + (len(old(RL(self))) - len(RL(self)))]))",
+    "forall(lambda j: implies(i + (len(old(RL(self))) - len(RL(self))) <= j < len(old(RL(self))), old(RL(self))[j] == RL(self)[j - (len(old(RL(self))) - len(RL(self)))]))",
+    "forall(lambda j: implies(i <= j < i + (len(old(RL(self))) - len(RL(self))), start <= old(RL(self))[j].start and old(RL(self))[j].stop <= stop))",
+]
+
 R.contract(
     "RangeSet.subtract",
     requires=["stop > start"],
     modifies=_MOD,
+    let={"v0": "self.gview", "i0": "self.gidx", "n0": "len(RL(self))"},
     ensures=[
         "forall(lambda x: self.gview[x] == (old(self.gview)[x] and not (start <= x < stop)))",
     ],
-    trusted=True,
-    prop=["C10", "C06"],
+    loops={
+        0: dict(
+            invariant=[
+                "start == old(start) and stop == old(stop) and stop > start",
+                "same(self.gview, old(self.gview)) and same(self.gidx, old(self.gidx))",
+                # every phase: the list stays well formed, ranges only shrink, the processed prefix avoids [start, stop)
+                "0 <= i <= len(RL(self))",
+                "rs_nonempty_ranges(self)",
+                "rs_sorted(self)",
+                "forall(lambda k, x: implies(0 <= k < len(RL(self)) and RL(self)[k].start <= x < RL(self)[k].stop, v0[x]))",
+                "forall(lambda k: implies(0 <= k < i, RL(self)[k].stop <= start or RL(self)[k].start >= stop))",
+            ] + ["implies(not g_done, %s)" % c for c in _SUB_G] + [
+                "implies(g_done, implies(i < len(RL(self)), stop <= RL(self)[i].start))",
+                "implies(g_done, sub_complete(self, v0, i0, n0, start, stop))",
+            ],
+            decreases="ite(g_done, 0, 2 * len(RL(self)) - i + 2)",
+            modifies=["g_done"],
+        )
+    },
+    ghost_at={
+        "i = 0": {"g_done": "False"},
+        "self.__ranges[i] = range(stop, r.stop)": {"g_done": "True"},
+        "self.__ranges.insert(i + 1, range(stop, r.stop))": {"g_done": "True"},
+        "return#0": {
+            "self.gidx": "amap(lambda x: ite(x < start, i0[x], i0[x] + (len(RL(self)) - n0)))",
+            "self.gview": "amap(lambda x: v0[x] and not (start <= x < stop))",
+        },
+    },
+    ghost_exit={
+        "self.gidx": "amap(lambda x: ite(x < start, i0[x], i0[x] + (len(RL(self)) - n0)))",
+        "self.gview": "amap(lambda x: v0[x] and not (start <= x < stop))",
+    },
+    prop=["C10", "C06", "C12", "C01"],
 )
 
 # construction of an EMPTY set (the only form the library uses outside tests)
